@@ -52,17 +52,22 @@ def classify_exception(ex) -> str:
 
 
 def load_text(text: str, name="ode"):
-    """returns (ode | None, captured items | None, error class | None, exception)"""
+    """returns (ode | None, captured items | None, error class | None, exception).
+    The text goes through the real gotranx.load.ode_from_string (the entry point of load_ode and of the command line), whose
+    transformer is replaced, for the duration of the call, by a subclass that records the item list TreeToODE.ode receives."""
+    import gotranx.load as gload
+
     tr = _Capture()
-    parser = Parser(parser="lalr", transformer=tr, propagate_positions=True)
+    saved = gload.TreeToODE
+    gload.TreeToODE = lambda *a, **k: tr
     try:
-        result = parser.parse(text)
-        if not isinstance(result, LarkODE):
-            return None, getattr(tr, "captured", None), "Other:InvalidODE", None
-        ode = make_ode(components=result.components, name=name, comments=result.comments)
+        ode = gload.ode_from_string(text, name=name)
         return ode, tr.captured, None, None
     except Exception as ex:  # noqa: BLE001
-        return None, getattr(tr, "captured", None), classify_exception(ex), ex
+        cls = "Other:InvalidODE" if type(ex).__name__ == "InvalidODEException" else classify_exception(ex)
+        return None, getattr(tr, "captured", None), cls, ex
+    finally:
+        gload.TreeToODE = saved
 
 
 # --------------------------------------------------------------------------------------------
